@@ -78,11 +78,16 @@ def make_ctx():
     return {"root": root, "scratch": scratch, "dir": d}
 
 
+COLD_EVERY = 32
+
+
 def one_run(mod, prop, seed, idx, ctx, want_plan=False):
     rng = run_rng(prop, seed, idx)
     plan = mod.gen_plan(rng)
     plan["seed"] = seed
     plan["idx"] = idx
+    if ctx.get("cold") is not None and idx % COLD_EVERY == COLD_EVERY - 1:
+        plan["cold"] = True
     if hasattr(mod, "prepare"):
         plan = mod.prepare(plan, ctx)
     res = mod.run(plan, ctx)
@@ -90,8 +95,9 @@ def one_run(mod, prop, seed, idx, ctx, want_plan=False):
     return plan, res
 
 
-def worker_main(mod, prop, seed, indices, wfd, deadline, sample_idx):
+def worker_main(mod, prop, seed, indices, wfd, deadline, sample_idx, cold=None):
     ctx = make_ctx()
+    ctx["cold"] = cold
     shrunk = 0
     out = os.fdopen(wfd, "w", buffering=1)
     try:
@@ -180,8 +186,11 @@ def replay(prop, path, quiet=False):
         doc = json.load(f)
     mod = importlib.import_module(MODULES[prop])
     zygote.import_blackbird()
+    cold = procs.ColdServer() if doc["plan"].get("cold") else None
     zygote.warm_up(os.path.join(VERIF, "corpus"))
     ctx = make_ctx()
+    if cold:
+        ctx["pristine_run"] = cold.run
     try:
         # the replaying interpreter is itself a zygote: mod.run only forks H and P
         res = mod.run(doc["plan"], ctx)
@@ -221,6 +230,7 @@ def batch(prop, tier, seed, workers, nruns, budget_s=None):
     mod = importlib.import_module(MODULES[prop])
     procs.cleanup_stale()
     zygote.import_blackbird()
+    colds = [procs.ColdServer() for _ in range(workers)] if getattr(mod, "USES_COLD", False) else []
     zygote.warm_up(os.path.join(VERIF, "corpus"))
     nominal = 60 if tier == "quick" else 600
     deadline = t0 + (budget_s or nominal * 5)
@@ -235,7 +245,11 @@ def batch(prop, tier, seed, workers, nruns, budget_s=None):
                 os.close(r)
                 for (rr, _) in pipes:
                     os.close(rr)
-                worker_main(mod, prop, seed, range(k, nruns, workers), w, deadline, sample_idx)
+                for j, c in enumerate(colds):
+                    if j != k:
+                        c.sock.close()
+                worker_main(mod, prop, seed, range(k, nruns, workers), w, deadline, sample_idx,
+                            cold=colds[k] if colds else None)
             except BaseException:
                 traceback.print_exc()
                 code = 3
@@ -243,6 +257,8 @@ def batch(prop, tier, seed, workers, nruns, budget_s=None):
                 os._exit(code)
         os.close(w)
         pipes.append((r, pid))
+    for c in colds:
+        c.sock.close()          # the workers hold their own ends now
     bufs = {r: b"" for r, _ in pipes}
     open_fds = set(bufs)
     runs = []
